@@ -40,7 +40,7 @@ def run_detailed(ctx, count, seed, prop, modes=(0,), variant="plain"):
         lines += common.harness_gen(harness, ["rand", seed + m, count // len(modes), m])
     impl, _, _ = common.run_both([harness, "run"], None, lines, chunk=200, timeout=300)
     res = {"runs": len(lines), "states": 0, "nontrivial": 0, "legal_fail": [], "orient_fail": [], "hpwl_fail": [], "fixed_fail": [],
-           "throw_fail": [], "frame_fail": [], "crash": [], "lines": lines, "impl": impl, "outcomes": {}, "callbacks": 0,
+           "throw_fail": [], "frame_fail": [], "crash": [], "hpwl_unparsable": [], "hpwl_end_fail": [], "lines": lines, "impl": impl, "outcomes": {}, "callbacks": 0,
            "moved_runs": 0, "polarity_orient_changed_runs": 0, "hpwl_improved_runs": 0}
     linp, lmap = [], []
     parsed = []
@@ -82,6 +82,11 @@ def run_detailed(ctx, count, seed, prop, modes=(0,), variant="plain"):
             res["crash"].append((l, out[-300:], "placeDetailed did not return or throw (abort/crash): " + str(st.get("crash", out[-100:]))))
             continue
         leg, end = st["leg"], st["end"]
+        # the harness prints Circuit::hpwl() in EVERY LEG / CB / END segment: a missing or non-integer value is an error of the
+        # harness/parser (broken correspondence), never a reason to skip the wirelength comparison
+        for name, sta in ([("leg", leg)] if leg else []) + [("cb%d" % k, c) for k, c in enumerate(st["cbs"])] + [("end", end)]:
+            if sta[2] is None:
+                res["hpwl_unparsable"].append((l, out[-300:], "the wirelength printed at %s is missing or not an integer" % name))
         kind = end[0] if end[0] == "OK" else end[0][:60]
         res["outcomes"][kind] = res["outcomes"].get(kind, 0) + 1
         res["callbacks"] += len(st["cbs"])
@@ -138,6 +143,13 @@ def run_detailed(ctx, count, seed, prop, modes=(0,), variant="plain"):
         res["polarity_orient_changed_runs"] += pol_changed
         if end[0] == "OK" and end[2] is not None and leg[2] is not None and end[2] < leg[2]:
             res["hpwl_improved_runs"] += 1
+        # the property's last clause, judged on its own (NOT through the monotone chain, whose baseline moves up after a rise):
+        # the returned wirelength does not exceed the legalized one
+        if end[0] == "OK" and end[2] is not None and leg[2] is not None:
+            res["end_vs_legalized_checked"] = res.get("end_vs_legalized_checked", 0) + 1
+            if end[2] > leg[2]:
+                res["hpwl_end_fail"].append((l, "end: hpwl %d, legalized %d" % (end[2], leg[2]),
+                                             "the wirelength returned by placeDetailed (%d) exceeds the legalized one (%d)" % (end[2], leg[2]), pol_changed, i, "end"))
     res["parsed"] = parsed
     _cache[key] = res
     return res
@@ -145,6 +157,8 @@ def run_detailed(ctx, count, seed, prop, modes=(0,), variant="plain"):
 
 def summary(res):
     d = {k: res[k] for k in ("runs", "states", "callbacks", "outcomes", "moved_runs", "polarity_orient_changed_runs", "hpwl_improved_runs")}
+    d["end_vs_legalized_checked"] = res.get("end_vs_legalized_checked", 0)
+    d["hpwl_values_unparsable"] = len(res["hpwl_unparsable"])
     from checks import dopt_common as do_
     d["net_weights"] = do_.weight_summary([split_dp(l)[1][len(split_dp(l)[0]):] for l in res["lines"]])
     return d
